@@ -45,8 +45,9 @@ def gen(seed, tier):
     if mode == "single" and children:
         children[rng.randrange(n)] = gen_child(rng, "random", supplies)
     ops = []
+    reassign_world = rng.random() < 0.25
     for _ in range(rng.randint(1, 10) if rng.random() < 0.8 else rng.randint(11, 40)):
-        k = rng.choice(["write", "write", "write", "state", "state", "add", "remove", "read"] + (["dup"] if rng.random() < 0.25 else []))
+        k = rng.choice(["write", "write", "write", "state", "state", "add", "remove", "read"] + (["dup"] if rng.random() < 0.25 else []) + (["reassign"] if reassign_world else []))
         if k == "write":
             ops.append(["write", rng.choice(demands)])
         elif k == "state":
@@ -56,6 +57,10 @@ def gen(seed, tier):
             ops.append(["add", gen_child(rng, rng.choice(["random", "zero"]), supplies)])
         elif k == "remove":
             ops.append(["remove", rng.randrange(9)])
+        elif k == "reassign":
+            # the children attribute assigned a new list (same pools, rotated / one dropped): the
+            # demand written before still reads back
+            ops.append(["reassign", rng.choice(["same", "rotate", "drop-last"])])
         elif k == "dup":
             ops.append(["dup", rng.randrange(9)])  # the same pool listed once more: it counts once per entry
         else:
@@ -162,6 +167,15 @@ def run(scenario, tape_values):
             elif k == "remove":
                 if comp.children:
                     comp.children.pop(op[1] % len(comp.children))
+            elif k == "reassign":
+                cur = list(comp.children)
+                if op[1] == "rotate" and cur:
+                    cur = cur[1:] + cur[:1]
+                elif op[1] == "drop-last" and len(cur) > 1:
+                    cur = cur[:-1]
+                comp.children = cur
+                if written["D"] is not None and (comp.demand != written["D"] or type(comp.demand) is not type(written["D"])):
+                    V("C07/readback/%s" % kind, "composite reads back %r after its children were assigned anew, last written %r" % (comp.demand, written["D"]))
             elif k == "dup":
                 if comp.children:
                     comp.children.append(comp.children[op[1] % len(comp.children)])
